@@ -65,7 +65,8 @@ type Session struct {
 
 func localsText(rs []LRule) string {
 	var sb strings.Builder
-	for _, r := range rs {
+	for ri, r := range rs {
+		fld := string("ABC"[ri%3]) // WF: every rule has an injected field of its own
 		fmt.Fprintf(&sb, "rule \"%s\" \"d\" salience %d\nbegin\n", r.Name, r.Sal)
 		if r.NoAsg {
 			// no assignment statement anywhere: the execution id is looked up by (rule, request)
@@ -100,6 +101,14 @@ func localsText(rs []LRule) string {
 				fmt.Fprintf(&sb, "  hold(e, %d)\n", n)
 			case "CF":
 				fmt.Fprintf(&sb, "  conc {\n    %s = wrhold(e, %d)\n    boomc()\n  }\n", op.Name, n)
+			case "WF":
+				// the field gets a value of this execution, the local is bound from the field (an addressable scalar)
+				// and read back at once: that value is what the local holds from now on
+				fmt.Fprintf(&sb, "  inj.%s = wrq2(e, %d)\n  %s = inj.%s\n  rd(e, %d, %s)\n", fld, n, op.Name, fld, n, op.Name)
+			case "WM":
+				fmt.Fprintf(&sb, "  %s = mkobj(e, %d)\n", op.Name, n)
+			case "RM":
+				fmt.Fprintf(&sb, "  %s.Tell(e, %d)\n", op.Name, n)
 			case "CW":
 				fmt.Fprintf(&sb, "  conc {\n    %s = wrhold(e, %d)\n    noopc()\n  }\n", op.Name, n)
 			case "T":
@@ -115,9 +124,16 @@ func localsText(rs []LRule) string {
 	return sb.String()
 }
 
+type LObj struct{ V int64 }
+
+func (o *LObj) Tell(e int64, i int64) {
+	theObs.Emit(obs.Event{"ev": "eop", "e": e, "i": i, "val": o.V})
+}
+
 type Inj struct {
 	A int64
 	B int64
+	C int64
 }
 
 var theObs *obs.Obs
@@ -165,6 +181,14 @@ func localsAPI() map[string]interface{} {
 		},
 		"boomc": func() { panic("conc branch fails") },
 		"noopc": func() {},
+		// WF: a value for the injected field, not logged (the read-back logs what the local got)
+		"wrq2": func(e int64, i int64) int64 { return e*100 + i },
+		// WM / RM: a fresh object bound to a local, and a method that tells which object it ran on
+		"mkobj": func(e int64, i int64) *LObj {
+			v := e*100 + i
+			theObs.Emit(obs.Event{"ev": "eop", "e": e, "i": i, "val": v})
+			return &LObj{V: v}
+		},
 		"tagv": func(e int64, i int64) bool {
 			theObs.Emit(obs.Event{"ev": "eop", "e": e, "i": i, "val": 0})
 			return true
